@@ -197,7 +197,35 @@ def run_tlc(ctx, module, constants, invariants, tag, emit_to=None, workers=4, ti
         p = subprocess.Popen(["timeout", str(timeout)] + cmd, stdout=subprocess.PIPE, stderr=subprocess.STDOUT,
                              cwd=spec_dir, env=env, text=True, errors="replace")
         vf = open(vec_path, "w") if vec_path else None
-        for line in p.stdout:
+        def logical_lines(stream):
+            """TLC's pretty printer wraps a printed tuple that is wider than 80 columns over several lines
+            ('<< "TAG",' / '   1,' / ... / '   2 >>'); join such a tuple back into one '<<"TAG", 1, ..., 2>>' line."""
+            pending = None
+            for raw in stream:
+                if pending is not None:
+                    pending.append(raw.strip())
+                    if raw.rstrip().endswith(">>"):
+                        j = " ".join(pending)
+                        j = "<<" + j[2:].lstrip()
+                        if j.endswith(" >>"):
+                            j = j[:-3] + ">>"
+                        pending = None
+                        yield j + "\n"
+                    continue
+                if raw.startswith('<< "'):
+                    if raw.rstrip().endswith(">>"):
+                        j = "<<" + raw.rstrip()[2:].lstrip()
+                        if j.endswith(" >>"):
+                            j = j[:-3] + ">>"
+                        yield j + "\n"
+                    else:
+                        pending = [raw.strip()]
+                    continue
+                yield raw
+            if pending is not None:
+                yield " ".join(pending) + "\n"
+
+        for line in logical_lines(p.stdout):
             if line.startswith('<<"REPLAY", "'):
                 if vf:
                     body = line.rstrip("\n")[len('<<"REPLAY", "'):-len('">>')]
